@@ -1,6 +1,6 @@
 (* C05 — Quiescent convergence (item model: Model/Item.v). *)
 From Coq Require Import List NArith ZArith Bool Arith.
-From Alp Require Import Base.Str Base.Types Model.Pull Model.Item Proofs.ItemProofs Model.Transport Proofs.TransportProofs.
+From Alp Require Import Base.Str Base.Types Model.Pull Model.Item Proofs.ItemProofs Model.Transport Proofs.TransportProofs Model.Dispatch Proofs.DispatchProofs.
 Import ListNotations.
 
 (* From every state of an item (consistent or not) and in every environment, four fault-free rounds of all daemons reach a
@@ -48,3 +48,13 @@ Example C05_example : rounds 1 ex_env ex_item = rounds 4 ex_env ex_item /\ req (
 Proof. exact example_converge. Qed.
 Example C05_example_transport : choose true ex_tnodes = Some 3%N /\ choose false ex_tnodes = None.
 Proof. exact example_transport. Qed.
+
+(* A request that only was skipped (inactive or suspect source, ...) never keeps another request for the same file waiting: in every
+   pass, every file that has some dispatchable pending request gets a pull (fix F-C05b), for every request table. *)
+Theorem C05_skipped_request_does_not_starve : forall seen reqs r, In r reqs -> r_ok r = true -> ~ In (r_file r) seen ->
+  exists r', In r' (snd (pass seen reqs)) /\ r_file r' = r_file r.
+Proof. exact pass_no_starvation. Qed.
+Print Assumptions C05_skipped_request_does_not_starve.
+Theorem C05_considered_unless_already_pulled : forall seen reqs r, In r (fst (pass seen reqs)) -> In r reqs /\ ~ In (r_file r) seen.
+Proof. exact pass_considered. Qed.
+Print Assumptions C05_considered_unless_already_pulled.
